@@ -230,3 +230,63 @@ def grid_nontrivial(g):
     if g is None:
         return False
     return g.get("cls", "uniform") != "uniform" or g.get("localize_t0") or g.get("localize_T")
+
+
+# ---------------------------------------------------------------------------------
+# a complete single-stage OCP usable with every sampling method
+# ---------------------------------------------------------------------------------
+
+@st.composite
+def base_ocp(draw, methods=("MS", "SS", "DC"), allow_alg=True, quad=False, grid_kw=None, horizons=("num", "free", "par"),
+             maxN=4, maxM=3, schemes=("rk", "expl_euler"), degrees=(1, 2, 3, 4, 5), table_kw=None, discrete_prob=0):
+    mcls = draw(st.sampled_from(list(methods)))
+    alg = 1 if (mcls == "DC" and allow_alg and draw(st.integers(0, 2)) == 0) else 0
+    tab = draw(symbol_table(alg=alg, quad=quad, **(table_kw or {})))
+    sp = {"name": "main"}
+    sp.update(tab)
+    sp["t0"] = draw(horizon(kinds=horizons, which="t0"))
+    sp["T"] = draw(horizon(kinds=horizons, which="T"))
+    install_horizon_params(sp)
+    if mcls == "DC":
+        m = draw(collocation_method(maxN=maxN, maxM=maxM, degrees=degrees, grid_kw=grid_kw))
+    else:
+        m = draw(shooting_method(maxN=maxN, maxM=maxM, classes=(mcls,), schemes=schemes, grid_kw=grid_kw))
+    discrete = mcls != "DC" and discrete_prob and draw(st.integers(0, 9)) < discrete_prob
+    if discrete:
+        sp["next"] = dynamics(draw, tab, discrete=True)
+    else:
+        sp["der"] = dynamics(draw, tab)
+    if alg:
+        lv = leaves_of([d for d in tab["states"] if not d.get("quad")])
+        z = E.S(tab["algebraics"][0]["name"], 0)
+        h = draw(bounded_expr(lv, nterms=(1, 2)))
+        sp["alg"] = [[["-", ["+", z, ["*", E.C(0.25), ["tanh", z]]], h]]]
+    sp["method"] = m
+    fill_param_values(draw, sp, m["N"])
+    return sp
+
+
+def activation_objective(sp):
+    """Objective terms touching every decision variable so that Opti keeps all of them in the NLP
+    (Opti drops variables that occur nowhere), making decision vectors comparable between variants."""
+    terms = []
+    lv = leaves_of([d for d in sp["states"] if not d.get("quad")]) + leaves_of(sp["controls"]) + leaves_of(sp["vars"])
+    acc = None
+    for l in lv:
+        t = ["sq", l]
+        acc = t if acc is None else ["+", acc, t]
+    for l in leaves_of(sp["params"]):   # parameters too: Opti's p only holds parameters that occur in the problem
+        acc = l if acc is None else ["+", acc, l]
+    if acc is not None:
+        terms.append(["sump", acc])
+    terms.append(["+", ["sq", ["at_t0", ["t"]]], ["sq", ["at_tf", ["t"]]]])
+    return terms
+
+
+def signal_leaves(sp, with_alg=False, with_params=True):
+    lv = leaves_of([d for d in sp["states"] if not d.get("quad")]) + leaves_of(sp["controls"]) + leaves_of(sp["vars"])
+    if with_params:
+        lv += leaves_of(sp["params"])
+    if with_alg:
+        lv += leaves_of(sp.get("algebraics", []))
+    return lv
